@@ -683,6 +683,16 @@ class Node(
             # Maybe we could switch a bunch of stuff to rely on the unique ID?
             nodes[modified_label] = node
 
+        # Re-connecting broken pairs prepends them, i.e. it shuffles the firing order of
+        # hand-made signal connections; remember the lists themselves (of every signal
+        # channel in the data tree and of everything connected to one) instead
+        saved_connections: dict[int, tuple] = {}
+        for node in data_tree_nodes:
+            for channel in (*node.signals.input, *node.signals.output):
+                for c in (channel, *channel.connections):
+                    if id(c) not in saved_connections:
+                        saved_connections[id(c)] = (c, list(c.connections))
+
         try:
             disconnected_pairs, starters = set_run_connections_according_to_linear_dag(
                 nodes
@@ -752,9 +762,8 @@ class Node(
             # No matter what, restore the original connections and labels afterwards
             for modified_label, node in nodes.items():
                 node.label = label_map[modified_label]
-                node.signals.disconnect_run()
-            for c1, c2 in disconnected_pairs:
-                c1.connect(c2)
+            for channel, connections in saved_connections.values():
+                channel.connections = connections
             if self.parent is not None:
                 self.parent.starting_nodes = parent_starting_nodes
 
